@@ -318,3 +318,21 @@ Fixpoint wf_b (fuel : nat) (p : parser) : bool :=
     && forallb (fun n => negb (str_eqb n [])) (p_names p)
     && forallb (fun nq => wf_b f (snd nq)) (p_choices p)
   end.
+
+(* ---------- JSON objects: keys unique at every level (what a dict / a parsed JSON or YAML mapping is) ----------
+   hypothesis of the selection-rule theorem C17_config_entry_selection_rule: for an association list with
+   a repeated key "the section of s" is not one thing *)
+Fixpoint json_ok (c : cfgt) : bool :=
+  match c with
+  | CObj l => (fix go (l : cobj) : bool :=
+                 match l with
+                 | [] => true
+                 | (k, v) :: t => negb (mem_str k (map fst t)) && json_ok v && go t
+                 end) l
+  | _ => true
+  end.
+
+(* the subcommand key of a config is absent or holds a string (a name): the configs the selection rule speaks
+   about.  (A number / a mapping under the subcommand key is rejected by the repaired tree.) *)
+Definition dest_key_plain (p : parser) (c : cobj) : bool :=
+  match assoc (p_dest p) c with None | Some (CStr _) => true | _ => false end.
